@@ -135,10 +135,14 @@ impl PubSubManager {
         let mut conn_subs = self.connections.lock().unwrap();
         let mut channel_subs = self.channels.lock().unwrap();
         
-        let conn_info = match conn_subs.get_mut(&connection_id) {
-            Some(info) => info,
-            None => return Ok(results), // Connection has no subscriptions
-        };
+        // A connection without any subscription still gets its acknowledgements (with count 0)
+        let conn_info = conn_subs.entry(connection_id).or_insert_with(|| {
+            SubscriberInfo {
+                connection_id,
+                channels: HashSet::new(),
+                patterns: HashSet::new(),
+            }
+        });
         
         // Determine which channels to unsubscribe from
         let channels_to_remove: Vec<Vec<u8>> = match channels {
@@ -225,10 +229,14 @@ impl PubSubManager {
         let mut conn_subs = self.connections.lock().unwrap();
         let mut pattern_subs = self.patterns.lock().unwrap();
         
-        let conn_info = match conn_subs.get_mut(&connection_id) {
-            Some(info) => info,
-            None => return Ok(results), // Connection has no subscriptions
-        };
+        // A connection without any subscription still gets its acknowledgements (with count 0)
+        let conn_info = conn_subs.entry(connection_id).or_insert_with(|| {
+            SubscriberInfo {
+                connection_id,
+                channels: HashSet::new(),
+                patterns: HashSet::new(),
+            }
+        });
         
         // Determine which patterns to unsubscribe from
         let patterns_to_remove: Vec<Vec<u8>> = match patterns {
